@@ -86,9 +86,9 @@ def cases(prop, shard, nshards, seed, tier, want_models=False):
     # through the table-level reader, the fitting to PDB limits and the PDB writer, then the residue-level reader: models
     # that are not numbered 1..N (a selection from an ensemble), chains of mixed name lengths (B next to A-2), insertion
     # codes under a chain name that needs renaming
-    for kind in ("ensemble-selection", "mixed-chain-name-lengths", "insertion-codes-and-long-chain-name"):
+    for kind in ("ensemble-selection", "zero-based-ensemble", "mixed-chain-name-lengths", "insertion-codes-and-long-chain-name"):
         if mine():
-            yield {"family": "through-the-table-writer", "kind": kind, "file": {"ensemble-selection": "tests/2HY9.cif", "mixed-chain-name-lengths": "tests/4gqj-assembly1.cif",
+            yield {"family": "through-the-table-writer", "kind": kind, "file": {"ensemble-selection": "tests/2HY9.cif", "zero-based-ensemble": "tests/6RS3.cif", "mixed-chain-name-lengths": "tests/4gqj-assembly1.cif",
                                                                                   "insertion-codes-and-long-chain-name": "tests/1ehz-assembly-1.cif"}[kind], "ops": []}
     # through the real reader: the text of a structure in which a few residues have a nearly superposed second copy
     # (a disorder deposited as two chains, as B/D of 488d.pdb) with equal or unequal occupancies - what the reader
@@ -338,6 +338,12 @@ def table_writer_pipeline(prop, case, rec, call):
         for m in (2, 5, 9):
             rows += emit.rows_from_structure(gen3d.load(case["file"], m))
         models = [2, 5, 9]
+    elif kind == "zero-based-ensemble":
+        # models numbered 0, 1, 2 (as molecular-dynamics tools write them)
+        rows = []
+        for new, m in enumerate((1, 4, 8)):
+            rows += [dict(r, model=new) for r in emit.rows_from_structure(gen3d.load(case["file"], m))]
+        models = [0, 1, 2]
     elif kind == "mixed-chain-name-lengths":
         rows = [r for r in emit.rows_from_structure(gen3d.load(case["file"], 1)) if r["chain"] in ("B", "A-2")]
         rows = [r for r in rows if r["chain"] == "B"] + [r for r in rows if r["chain"] == "A-2"]
